@@ -392,7 +392,7 @@ fn fixed_bases(seed: u64, count: usize) -> Vec<Base> {
                 1 => n - 2u32,
                 _ => from_be(&expand_bytes(s ^ 0xd, 32)) % (n - 2u32) + 1u32,
             };
-            Base { d: gen::hex32(&d), id: i % id_pool().len(), msg_len: [0usize, 1, 13, 55, 64, 100, 300, 31][i % 8], msg_seed: s, k: gen::hex32(&(from_be(&expand_bytes(s ^ 0x4b, 32)) % (n - 1u32) + 1u32)) }
+            Base { d: gen::hex32(&d), id: i % id_pool().len(), msg_len: [32usize, 0, 1, 64, 13, 55, 100, 300, 31, 33][i % 10], msg_seed: s, k: gen::hex32(&(from_be(&expand_bytes(s ^ 0x4b, 32)) % (n - 1u32) + 1u32)) }
         })
         .collect()
 }
